@@ -4,6 +4,8 @@ Traces: every run of an attrset-level edit is a list of in-place writes (`Upd`) 
 in a footprint. Generic machinery (this file) and the per-function lemmas (`Lemmas/TraceEdit.lean`).
 -/
 namespace Nima
+-- name tokens are compared by spelling in this file (see `NameCmp` in Model/Edit.lean)
+attribute [local instance] NameCmp.spelled
 
 open Node EditM
 
